@@ -9,7 +9,7 @@
    statements are C27_converge (safety, all schedules), C27_full_partial
    (liveness under "no stalled subscriber") and C27_unsub. *)
 From Coq Require Import List.
-From Verif Require Import Discovery.Helium Discovery.StreamProofs Discovery.HeliumProofs.
+From Verif Require Import Discovery.Helium Discovery.StreamProofs Discovery.HeliumProofs Discovery.OkProofs.
 Import ListNotations.
 
 (* store/etcdv3 ServiceStatusStream: watch before get.  Whatever is committed
@@ -92,3 +92,23 @@ Theorem C27_stall_blocks : forall ks s cur msg,
   Forall (fun e => sys_event e \/ e = ETick) ks -> same_but_tick s (run s ks).
 Proof. exact stall_blocks. Qed.
 Print Assumptions C27_stall_blocks.
+
+(* ---- the boolean check evaluated by the harness ---- *)
+
+(* ok c = true implies the clauses of the property as propositions over the
+   observed run: per slot "latest" (every message is one of the lists produced so
+   far, never going back) and, across a tick with the stream alive, "converge"
+   (every live subscriber's last message is the current list); at the end every
+   Unsubscribe call returned and the channels of the unsubscribed are closed *)
+Theorem C27_ok_reflects : forall c, ok c = true ->
+  (forall pre sl post, slots c = pre ++ sl :: post -> OkProofs.slot_clause (fold_left ok_step pre (ok_init c)) sl) /\
+  unsub_clause c.
+Proof. exact OkProofs.ok_reflects. Qed.
+Print Assumptions C27_ok_reflects.
+
+(* ok accepts the model's own output (canonical schedule) on every well-formed
+   script without an exposed stall, exhaustively for 22621 scripts; NOT proved
+   for all scripts *)
+Theorem C27_ok_gen_bounded : bad [ASet [7]] 4 = [].
+Proof. exact OkProofs.ok_gen_bounded. Qed.
+Print Assumptions C27_ok_gen_bounded.
